@@ -114,7 +114,7 @@ class SliceInnerContract(Contract):
     # -- spec of the selected positions, from the argument's own fields
     @staticmethod
     def spec(st0, a):
-        idx = st0.ghost.get(("fld", "index", a.slize.z.get_id()))
+        idx = st0.ghost.get(("fld", "index", zid(a.slize.z)))
         parent = st0.heap.get("parent", a.slize.z)
         w = W(parent)
         if isinstance(idx, (int, SInt)) and not isinstance(idx, bool):
@@ -182,6 +182,12 @@ class SliceInnerContract(Contract):
             issubclass(k, Signal) for k in self.parent_classes) else True,
         # the parent's own width may be unobtainable (unresolvable reference, invalid parent slice): never for a Signal
         RuntimeError: lambda eng, st0, a: not all(issubclass(k, Signal) for k in self.parent_classes)})
+
+
+class SliceRejects(SliceInnerContract):
+    """The C02 part of the contract alone: an index that selects nothing (out of range, empty) never yields a result."""
+    props = ("C02",)
+    posts = property(lambda self: [])
 
 
 CONTRACTS = [SliceInnerContract()]
